@@ -43,6 +43,9 @@ func main() { hx.Main("C08", runC08) }
 type srcOrder struct {
 	StoreLocked    bool     `json:"store_locked"`
 	DetachPrewrite bool     `json:"detach_prewrite"`
+	FlusherSwap    bool     `json:"flusher_swap"`
+	FlagInWriteAOF bool     `json:"flag_in_writeaof"`
+	Callers        []string `json:"writeaof_callers"`
 	Problems       []string `json:"problems"`
 	Main           string   `json:"main_block_order"`
 	Detach         string   `json:"golive_block_order"`
@@ -263,10 +266,50 @@ func readSourceOrder(repo string) srcOrder {
 	}
 	if w := fn(aofGo, "writeAOF"); w != nil {
 		st, ap := firstCall(w, "s.aofdirty.Store"), firstAssign(w, "s.aofbuf")
-		if st == 0 || ap == 0 || !(st < ap) {
+		switch {
+		case ap == 0:
+			bad("writeAOF: no append to s.aofbuf")
+		case st != 0 && st < ap:
+			so.FlagInWriteAOF = true
+		case st != 0:
 			bad("writeAOF: s.aofdirty.Store(true) does not precede the append to s.aofbuf")
+		default:
+			// the flag is not raised by writeAOF: recognised only as "handleInputCommand raises it right
+			// after its own writeAOF call, under the lock" (then script writes never raise it)
+			ok := false
+			if h := fn(serverGo, "handleInputCommand"); h != nil {
+				ast.Inspect(h.Body, func(x ast.Node) bool {
+					is, isIf := x.(*ast.IfStmt)
+					if !isIf || types.ExprString(is.Cond) != "write" {
+						return true
+					}
+					var wpos, spos token.Pos
+					ast.Inspect(is.Body, func(y ast.Node) bool {
+						if c, isCall := y.(*ast.CallExpr); isCall {
+							if callee(c) == "s.writeAOF" && wpos == 0 {
+								wpos = c.Pos()
+							}
+							if callee(c) == "s.aofdirty.Store" && len(c.Args) == 1 && types.ExprString(c.Args[0]) == "true" {
+								spos = c.Pos()
+							}
+						}
+						return true
+					})
+					if wpos != 0 && spos != 0 && wpos < spos {
+						ok = true
+					}
+					return true
+				})
+			}
+			if !ok {
+				bad("the dirty flag is raised neither in writeAOF before the append nor in handleInputCommand after writeAOF")
+			}
 		}
 	}
+	// who calls writeAOF: the model knows the dispatcher, the two script paths (they reply to a client)
+	// and the silent writers (expirer, follower, dev massinsert)
+	knownCallers := map[string]bool{"handleInputCommand": true, "luaTile38AtomicRW": true, "luaTile38NonAtomic": true,
+		"backgroundExpireObjects": true, "backgroundExpireHooks": true, "followHandleCommand": true, "cmdMassInsert": true}
 	if f := fn(aofGo, "flushAOF"); f != nil {
 		wr, rs := firstCall(f, "s.aof.Write"), firstAssign(f, "s.aofbuf")
 		if wr == 0 || rs == 0 || !(wr < rs) {
@@ -275,6 +318,25 @@ func readSourceOrder(repo string) srcOrder {
 	}
 	if b := fn(serverGo, "backgroundSyncAOF"); b != nil {
 		lk, fl := firstCall(b, "s.mu.LockLowPriority"), firstCall(b, "s.flushAOF")
+		// an access to the flag by the flusher: recognised only as `if !s.aofdirty.Swap(false) { return }` before the lock
+		nflag, nswap := 0, 0
+		ast.Inspect(b.Body, func(x ast.Node) bool {
+			if c, ok := x.(*ast.CallExpr); ok && strings.HasPrefix(callee(c), "s.aofdirty.") {
+				nflag++
+			}
+			if is, ok := x.(*ast.IfStmt); ok && types.ExprString(is.Cond) == "!s.aofdirty.Swap(false)" && is.Else == nil &&
+				len(is.Body.List) == 1 && lk != 0 && is.End() < lk {
+				if _, isRet := is.Body.List[0].(*ast.ReturnStmt); isRet {
+					nswap++
+				}
+			}
+			return true
+		})
+		if nflag == 1 && nswap == 1 {
+			so.FlusherSwap = true
+		} else if nflag != 0 {
+			bad("backgroundSyncAOF touches the dirty flag in a way the model does not know")
+		}
 		hasDefer := false
 		ast.Inspect(b.Body, func(x ast.Node) bool {
 			if d, ok := x.(*ast.DeferStmt); ok && callee(d.Call) == "s.mu.Unlock" {
@@ -289,6 +351,7 @@ func readSourceOrder(repo string) srcOrder {
 	// every use of the flag in the package
 	files, _ := filepath.Glob(filepath.Join(dir, "*.go"))
 	uses := map[string]int{}
+	callers := map[string]bool{}
 	for _, p := range files {
 		base := filepath.Base(p)
 		if strings.HasSuffix(base, "_test.go") || strings.HasPrefix(base, "verif_") {
@@ -308,8 +371,38 @@ func readSourceOrder(repo string) srcOrder {
 			}
 			return true
 		})
+		for _, d := range f.Decls {
+			if fd, ok := d.(*ast.FuncDecl); ok && fd.Body != nil {
+				ast.Inspect(fd.Body, func(x ast.Node) bool {
+					if c, ok := x.(*ast.CallExpr); ok && callee(c) == "s.writeAOF" {
+						callers[fd.Name.Name] = true
+					}
+					return true
+				})
+			}
+		}
 	}
-	want := map[string]int{"aof.go:s.aofdirty.Store(true)": 1, "server.go:s.aofdirty.Load": 1, "server.go:s.aofdirty.Store(false)": 1}
+	for c := range callers {
+		so.Callers = append(so.Callers, c)
+		if !knownCallers[c] {
+			bad("writeAOF has a caller the model does not know: %s", c)
+		}
+	}
+	sort.Strings(so.Callers)
+	for _, c := range []string{"handleInputCommand", "luaTile38AtomicRW", "luaTile38NonAtomic"} {
+		if !callers[c] {
+			bad("%s no longer calls writeAOF", c)
+		}
+	}
+	want := map[string]int{"server.go:s.aofdirty.Load": 1, "server.go:s.aofdirty.Store(false)": 1}
+	if so.FlagInWriteAOF {
+		want["aof.go:s.aofdirty.Store(true)"] = 1
+	} else {
+		want["server.go:s.aofdirty.Store(true)"] = 1
+	}
+	if so.FlusherSwap {
+		want["server.go:s.aofdirty.Swap(false)"] = 1
+	}
 	if so.DetachPrewrite {
 		want["server.go:s.aofdirty.Load"], want["server.go:s.aofdirty.Store(false)"] = 2, 2
 	}
@@ -330,8 +423,10 @@ func readSourceOrder(repo string) srcOrder {
 // 2. scenarios and the model
 
 type batch struct {
-	Cmds   []int `json:"cmds"`
-	Detach bool  `json:"golive,omitempty"`
+	Cmds   []int  `json:"cmds"`
+	Detach bool   `json:"golive,omitempty"`
+	Via    string `json:"via,omitempty"` // "" = plain commands; "eval" / "evalna" = each command is tile38.call(...) inside a script
+	Del    bool   `json:"del,omitempty"` // the commands are DELs of objects created (and flushed) before the schedule starts
 }
 
 type prog struct {
@@ -359,6 +454,9 @@ func (p prog) token() string {
 				cs = append(cs, strconv.Itoa(c))
 			}
 			s = strings.Join(cs, ",")
+		}
+		if b.Via != "" && len(b.Cmds) > 0 {
+			s += "~"
 		}
 		if b.Detach {
 			s += "!"
@@ -422,10 +520,10 @@ func parseMState(w string) mstate {
 		File: parseInts(f[4]), Acked: parseInts(f[5]), OK: f[6] == "1"}
 }
 
-type variant struct{ storeLocked, detachPrewrite bool }
+type variant struct{ storeLocked, detachPrewrite, flusherSwap, flagInWriteAOF bool }
 
 func modelTrace(drv *model.Driver, v variant, progs []prog, sched []int) []mstate {
-	toks := []string{"trace", model.B(v.storeLocked), model.B(v.detachPrewrite), strconv.Itoa(len(progs))}
+	toks := []string{"trace", model.B(v.storeLocked), model.B(v.detachPrewrite), model.B(v.flusherSwap), model.B(v.flagInWriteAOF), strconv.Itoa(len(progs))}
 	for _, p := range progs {
 		toks = append(toks, p.token())
 	}
@@ -573,6 +671,8 @@ type rthread struct {
 	cur      status // where it is parked
 	expect   int    // replies not yet read for batches already sent
 	curCmds  []int
+	curPlain bool
+	dels     map[int]bool
 	attached bool
 }
 
@@ -591,9 +691,23 @@ func (e *env) sendBatch(t *rthread, scen int) {
 	t.nextB++
 	var pkt []byte
 	for _, c := range b.Cmds {
-		pkt = append(pkt, srv.Encode("SET", "c08", e.objID(scen, c), "POINT", "1", strconv.Itoa(c))...)
+		id := e.objID(scen, c)
+		switch {
+		case b.Via == "" && !b.Del:
+			pkt = append(pkt, srv.Encode("SET", "c08", id, "POINT", "1", strconv.Itoa(c))...)
+		case b.Via == "" && b.Del:
+			pkt = append(pkt, srv.Encode("DEL", "c08", id)...)
+		case !b.Del:
+			pkt = append(pkt, srv.Encode(strings.ToUpper(b.Via), "return tile38.call('set', KEYS[1], ARGV[1], 'point', 1, ARGV[2])", "1", "c08", id, strconv.Itoa(c))...)
+		default:
+			pkt = append(pkt, srv.Encode(strings.ToUpper(b.Via), "return tile38.call('del', KEYS[1], ARGV[1])", "1", "c08", id)...)
+		}
+		if b.Del {
+			t.dels[c] = true
+		}
 	}
 	t.curCmds = b.Cmds
+	t.curPlain = b.Via == "" && !b.Del
 	t.expect = len(b.Cmds)
 	if b.Detach {
 		pkt = append(pkt, srv.Encode("SUBSCRIBE", "c08chan"+t.name)...)
@@ -650,6 +764,28 @@ func (e *env) replay(sc scenario) (reusable bool) {
 			return false
 		}
 	}
+	var pre []int
+	for _, p := range sc.Progs {
+		for _, b := range p.Batches {
+			if b.Del {
+				pre = append(pre, b.Cmds...)
+			}
+		}
+	}
+	if len(pre) > 0 {
+		c, err := e.srv.Dial()
+		if err != nil {
+			e.fail("correspondence", "server-dial", err.Error(), sc, nil, nil)
+			return false
+		}
+		for _, id := range pre {
+			c.Do("SET", "c08", e.objID(scen, id), "POINT", "2", "2")
+		}
+		c.Close()
+		if !e.normalise(sc) {
+			return false
+		}
+	}
 	ths := make([]*rthread, len(sc.Progs))
 	defer func() {
 		for _, t := range ths {
@@ -668,7 +804,7 @@ func (e *env) replay(sc scenario) (reusable bool) {
 			return false
 		}
 		c.Timeout = 5 * time.Second
-		t := &rthread{idx: i, name: fmt.Sprintf("x%dt%d", scen, i), conn: c, prog: p}
+		t := &rthread{idx: i, name: fmt.Sprintf("x%dt%d", scen, i), conn: c, prog: p, dels: map[int]bool{}}
 		ths[i] = t
 		if rep := e.ctl.ask("attach %s %s", c.C.LocalAddr().String(), t.name); rep != "ok" {
 			e.fail("correspondence", "control-socket", "attach: "+rep, sc, nil, nil)
@@ -717,7 +853,24 @@ func (e *env) replay(sc scenario) (reusable bool) {
 					}
 					e.bgFlying = false
 				}
-				st = parseStatus(e.ctl.ask("step bg 3000"))
+				if e.v.flusherSwap {
+					// the flag swap happens before the lock and there is no schedule point between them:
+					// release the flusher and look at the flag; it parks at F2 when the model takes the lock (FL)
+					if rep := e.ctl.ask("go bg"); rep != "ok" {
+						e.fail("correspondence", "control-socket", "go bg: "+rep, sc, nil, nil)
+						return false
+					}
+					time.Sleep(300 * time.Microsecond)
+					st = parseStatus(e.ctl.ask("stat"))
+					st.Point = pcA
+					if pcA == "F1" {
+						e.bgFlying = true
+					}
+				} else {
+					st = parseStatus(e.ctl.ask("step bg 3000"))
+				}
+			case "FL":
+				st = parseStatus(e.ctl.ask("wait bg 3000"))
 			case "F2":
 				st = parseStatus(e.ctl.ask("step bg 3000"))
 			case "F3":
@@ -781,8 +934,8 @@ func (e *env) replay(sc scenario) (reusable bool) {
 				e.fail("correspondence", "sched-replay-blocked", fmt.Sprintf("step %d: reply %d/%d of thread %d did not arrive: %v", k, j+1, nrep, ti, err), sc, st.Raw, after.Raw)
 				return false
 			}
-			if j < len(t.curCmds) && v.String() != "+OK" {
-				e.fail("correspondence", "sched-replay-state", fmt.Sprintf("step %d: SET answered %s", k, v.String()), sc, v.String(), "+OK")
+			if j < len(t.curCmds) && (v.IsErr() || (t.curPlain && v.String() != "+OK")) {
+				e.fail("correspondence", "sched-replay-state", fmt.Sprintf("step %d: write command %d of the batch answered %s", k, j+1, v.String()), sc, v.String(), "+OK")
 				return false
 			}
 		}
@@ -791,9 +944,13 @@ func (e *env) replay(sc scenario) (reusable bool) {
 		if len(newAcked) > 0 {
 			aof, _ := os.ReadFile(filepath.Join(e.dir, "appendonly.aof"))
 			for _, c := range newAcked {
-				if !bytes.Contains(aof, []byte(e.objID(scen, c))) {
+				present := bytes.Contains(aof, []byte(e.objID(scen, c)))
+				if t.dels[c] {
+					present = bytes.Contains(bytes.ToLower(aof), bytes.ToLower(srv.Encode("del", "c08", e.objID(scen, c))))
+				}
+				if !present {
 					e.fail("oracle", "ack-before-flush",
-						fmt.Sprintf("the reply +OK of SET c08 %s (connection %d) has been received but appendonly.aof (%d bytes) does not contain the command", e.objID(scen, c), ti, len(aof)), sc, st.Raw, after.Raw)
+						fmt.Sprintf("the success reply of the write on c08 %s (connection %d) has been received but appendonly.aof (%d bytes) does not contain the command", e.objID(scen, c), ti, len(aof)), sc, st.Raw, after.Raw)
 				}
 			}
 		}
@@ -813,9 +970,19 @@ func (e *env) replay(sc scenario) (reusable bool) {
 					time.Sleep(5 * time.Millisecond) // PING is answered before the log has been replayed
 					v, err = pc.Do("GET", "c08", e.objID(scen, c), "POINT")
 				}
-				if err != nil || v.Kind != '*' {
+				isDel := false
+				for _, u := range ths {
+					if u != nil && u.dels[c] {
+						isDel = true
+					}
+				}
+				if !isDel && (err != nil || v.Kind != '*') {
 					e.fail("oracle", "acked-write-lost-after-kill9",
-						fmt.Sprintf("SET c08 %s was acknowledged (+OK received), the server was killed with SIGKILL right after, and after the restart GET answers %s", e.objID(scen, c), v.String()), sc, v.String(), after.Raw)
+						fmt.Sprintf("the write of c08 %s was acknowledged (success reply received), the server was killed with SIGKILL right after, and after the restart GET answers %s", e.objID(scen, c), v.String()), sc, v.String(), after.Raw)
+				}
+				if isDel && (err != nil || v.Kind != 'n') {
+					e.fail("oracle", "acked-write-lost-after-kill9",
+						fmt.Sprintf("DEL c08 %s was acknowledged, the server was killed with SIGKILL right after, and after the restart the object is back: GET answers %s", e.objID(scen, c), v.String()), sc, v.String(), after.Raw)
 				}
 			}
 			pc.Close()
@@ -847,11 +1014,20 @@ func (e *env) replay(sc scenario) (reusable bool) {
 	}
 	e.count(sc, writesAcked, interleaved)
 	// ---- clean up: let everything run to completion, then bring the server to (buf=[], dirty=false) ----
+	for _, t := range ths {
+		if t == nil {
+			continue
+		}
+		e.ctl.ask("detach %s", t.name)
+	}
 	for i, p := range sc.Progs {
 		if !p.Flusher {
 			continue
 		}
 		switch final.PCs[i] {
+		case "FL":
+			e.ctl.ask("wait bg 3000")
+			fallthrough
 		case "F2":
 			e.ctl.ask("step bg 3000")
 			fallthrough
@@ -859,12 +1035,6 @@ func (e *env) replay(sc scenario) (reusable bool) {
 			e.ctl.ask("go bg")
 			e.bgFlying = true
 		}
-	}
-	for _, t := range ths {
-		if t == nil {
-			continue
-		}
-		e.ctl.ask("detach %s", t.name)
 	}
 	for _, t := range ths {
 		if t == nil {
@@ -917,6 +1087,9 @@ func conn(bs ...batch) prog { return prog{Batches: bs} }
 func wr(c ...int) batch     { return batch{Cmds: c} }
 func live(c ...int) batch   { return batch{Cmds: c, Detach: true} }
 func rd() batch             { return batch{} }
+func via(v string, del bool, c ...int) batch {
+	return batch{Cmds: c, Via: v, Del: del}
+}
 
 func rep(t, n int) []int {
 	out := make([]int, n)
@@ -968,10 +1141,20 @@ func corpus() []scenario {
 			Sched: cat(rep(0, 5), rep(1, 3), rep(2, 4), rep(0, 6), rep(2, 8))},
 		{Name: "C reads the flag before A's flush, A clears after C's append", Progs: two,
 			Sched: cat(rep(0, 7), rep(1, 1), rep(0, 2), rep(1, 4), rep(0, 2), rep(1, 8))},
+		{Name: "the flusher starts its round between a connection's append and its flag test", Progs: []prog{conn(wr(1)), {Flusher: true}},
+			Sched: cat(rep(0, 4), rep(1, 1), rep(0, 2), rep(1, 2), rep(0, 6))},
+		{Name: "the flusher starts its round between a connection's append and its flag test, kill -9 at the acknowledgement", Progs: []prog{conn(wr(1)), {Flusher: true}},
+			Sched: cat(rep(0, 4), rep(1, 1), rep(0, 2), rep(1, 2), rep(0, 6)), KillAtAck: 1},
+		{Name: "writes made by scripts: EVAL set, EVALNA set, EVAL del, EVALNA del, plain DEL", Progs: []prog{conn(via("eval", false, 1), via("evalna", false, 2), via("eval", true, 3), via("evalna", true, 4), via("", true, 5))}, Sched: rep(0, 60)},
+		{Name: "EVAL ... tile38.call('set') then kill -9 at its acknowledgement", Progs: []prog{conn(via("eval", false, 1))}, Sched: rep(0, 12), KillAtAck: 1},
+		{Name: "EVALNA ... tile38.call('set') then kill -9 at its acknowledgement", Progs: []prog{conn(via("evalna", false, 1))}, Sched: rep(0, 12), KillAtAck: 1},
+		{Name: "EVAL ... tile38.call('del') then kill -9 at its acknowledgement", Progs: []prog{conn(via("eval", true, 1))}, Sched: rep(0, 12), KillAtAck: 1},
+		{Name: "a script write and a plain write on two connections", Progs: []prog{conn(via("eval", false, 1)), conn(wr(2))},
+			Sched: cat(rep(0, 5), rep(1, 4), rep(0, 6), rep(1, 8))},
 	}
 }
 
-func randomScenario(rng *rand.Rand, allowFlusher bool) scenario {
+func randomScenario(rng *rand.Rand, allowFlusher bool, round int) scenario {
 	n := 2 + rng.Intn(2)
 	var progs []prog
 	id := 0
@@ -988,6 +1171,15 @@ func randomScenario(rng *rand.Rand, allowFlusher bool) scenario {
 			default:
 				id += 2
 				b.Cmds = []int{id - 1, id}
+			}
+			if len(b.Cmds) > 0 {
+				switch k := rng.Intn(20); {
+				case k < 5:
+					b.Via = "eval"
+				case k < 8:
+					b.Via = "evalna"
+				}
+				b.Del = rng.Intn(6) == 0
 			}
 			if j == nb-1 && len(b.Cmds) > 0 && rng.Intn(7) == 0 {
 				b.Detach = true // (a batch that goes live with an empty client.out writes nothing: no acknowledgement)
@@ -1006,7 +1198,7 @@ func randomScenario(rng *rand.Rand, allowFlusher bool) scenario {
 		total += maxSteps(p)
 	}
 	var sched []int
-	flLeft := 3
+	flLeft := round // one round of the flusher (F1 [FL] F2 F3)
 	for len(sched) < total {
 		t := rng.Intn(len(progs))
 		burst := 1 + rng.Intn(4)
@@ -1042,6 +1234,20 @@ func windowScenario(rng *rand.Rand) scenario {
 	c2 := 1 + rng.Intn(3)
 	sched := cat(rep(0, a1), rep(1, c1), rep(0, a2), rep(1, c2), completion(progs))
 	return scenario{Name: "window", Progs: progs, Sched: sched}
+}
+
+// the flusher's round starts while a connection is somewhere between its write and its reply
+func flusherWindowScenario(rng *rand.Rand, round int) scenario {
+	progs := []prog{conn(wr(1)), {Flusher: true}, conn(wr(2))}
+	if rng.Intn(3) == 0 {
+		progs[0] = conn(via("eval", false, 1))
+	}
+	a1 := 3 + rng.Intn(5)
+	f1 := 1 + rng.Intn(2)
+	a2 := 1 + rng.Intn(3)
+	c1 := rng.Intn(6)
+	sched := cat(rep(0, a1), rep(1, f1), rep(2, c1), rep(0, a2), rep(1, round-f1), completion(progs))
+	return scenario{Name: "flusher-window", Progs: progs, Sched: sched}
 }
 
 // every maximal execution (sequence of enabled steps) of the given programs, enumerated in the model
@@ -1093,10 +1299,10 @@ func runC08(r *hx.Result, cfg hx.Config) {
 	if len(so.Problems) > 0 {
 		r.Fail(hx.Failure{Kind: "correspondence", Signature: "source-order-shape", What: "netServe/writeAOF/flushAOF no longer have the statement shape the model Model/Prewrite.v transcribes: " + strings.Join(so.Problems, "; "), Case: so})
 	}
-	if !so.StoreLocked || !so.DetachPrewrite {
+	if !so.StoreLocked || !so.DetachPrewrite || so.FlusherSwap || !so.FlagInWriteAOF {
 		r.Fail(hx.Failure{Kind: "correspondence", Signature: "source-order-variant",
-			What: fmt.Sprintf("the source has statement order store_locked=%v detach_prewrite=%v (reply block: %s; goingLive block: %s); theorem c08_acked_flushed is about store_locked=true detach_prewrite=true, and c08_refuted / c08_detach_refuted give violating schedules for the other orders",
-				so.StoreLocked, so.DetachPrewrite, so.Main, so.Detach), Case: so})
+			What: fmt.Sprintf("the source has statement order store_locked=%v detach_prewrite=%v flusher_swap=%v flag_in_writeaof=%v (reply block: %s; goingLive block: %s); theorem c08_acked_flushed is about store_locked=true detach_prewrite=true flusher_swap=false flag_in_writeaof=true, and c08_refuted / c08_detach_refuted / c08_flusher_swap_refuted / c08_flag_in_dispatcher_refuted give violating schedules for the other orders",
+				so.StoreLocked, so.DetachPrewrite, so.FlusherSwap, so.FlagInWriteAOF, so.Main, so.Detach), Case: so})
 	}
 	rng := rand.New(rand.NewSource(cfg.Seed))
 	drv, err := model.Start("prewrite")
@@ -1104,7 +1310,7 @@ func runC08(r *hx.Result, cfg hx.Config) {
 		panic(err)
 	}
 	defer drv.Close()
-	e := &env{r: r, cfg: cfg, drv: drv, v: variant{so.StoreLocked, so.DetachPrewrite}, nonce: fmt.Sprintf("s%d", cfg.Seed%100000)}
+	e := &env{r: r, cfg: cfg, drv: drv, v: variant{so.StoreLocked, so.DetachPrewrite, so.FlusherSwap, so.FlagInWriteAOF}, nonce: fmt.Sprintf("s%d", cfg.Seed%100000)}
 	defer e.stopServer()
 
 	run := func(sc scenario) {
@@ -1116,7 +1322,7 @@ func runC08(r *hx.Result, cfg hx.Config) {
 	for _, sc := range corpus() {
 		run(sc)
 	}
-	nRandom, nWindow, nFlusher, nKill := 200, 60, 8, 8
+	nRandom, nWindow, nFlusher, nKill := 200, 60, 12, 8
 	budget := 50 * time.Second
 	if cfg.Tier == "thorough" {
 		nRandom, nWindow, nFlusher, nKill = 6000, 1500, 120, 150
@@ -1131,7 +1337,7 @@ func runC08(r *hx.Result, cfg hx.Config) {
 		run(windowScenario(rng))
 	}
 	for i := 0; i < nRandom && within(); i++ {
-		run(randomScenario(rng, false))
+		run(randomScenario(rng, false, 3))
 	}
 	// schedules cut at a random acknowledgement by SIGKILL + restart
 	for i := 0; i < nKill && within(); i++ {
@@ -1139,14 +1345,22 @@ func runC08(r *hx.Result, cfg hx.Config) {
 		if i%2 == 0 {
 			sc = windowScenario(rng)
 		} else {
-			sc = randomScenario(rng, false)
+			sc = randomScenario(rng, false, 3)
 		}
 		sc.Name += "+kill9"
 		sc.KillAtAck = 1 + rng.Intn(2)
 		run(sc)
 	}
 	for i := 0; i < nFlusher && within(); i++ {
-		run(randomScenario(rng, true))
+		round := 3
+		if e.v.flusherSwap {
+			round = 4
+		}
+		if i%2 == 0 {
+			run(flusherWindowScenario(rng, round))
+		} else {
+			run(randomScenario(rng, true, round))
+		}
 	}
 	if cfg.Tier == "thorough" || cfg.Search {
 		// all executions of 2 connections × 1 command, enumerated in the model, each replayed
@@ -1182,5 +1396,5 @@ func runC08(r *hx.Result, cfg hx.Config) {
 	r.Extra["acknowledgements_observed"] = e.acks
 	r.Extra["kill9_restarts"] = e.kills
 	r.Extra["servers_started"] = e.nsrv
-	r.Extra["model_variant"] = fmt.Sprintf("store_locked=%v detach_prewrite=%v", e.v.storeLocked, e.v.detachPrewrite)
+	r.Extra["model_variant"] = fmt.Sprintf("store_locked=%v detach_prewrite=%v flusher_swap=%v flag_in_writeaof=%v", e.v.storeLocked, e.v.detachPrewrite, e.v.flusherSwap, e.v.flagInWriteAOF)
 }
